@@ -473,7 +473,15 @@ impl Ranges {
                     return value.populate(args, foreign_key, locale, key_path);
                 }
             }
-            unreachable!("plurals validity should already have been checked.");
+            Err(Error::UnexpectedToken {
+                locale: locale.clone(),
+                key_path: key_path.to_owned(),
+                message: format!(
+                    "argument \"count\" to foreign key \"{}\" does not match any range",
+                    foreign_key
+                ),
+            }
+            .into())
         }
         fn try_from<T, U: TryFrom<T, Error = TryFromIntError>>(
             count: T,
